@@ -105,6 +105,7 @@ fn run_query(case: &WorldCase, q: &Query, args: &BTreeMap<String, Value>) -> Res
         return Err("too-much-work".into());
     }
     match outcome {
+        ExecOutcome::Budget => return Err("too-much-work".into()),
         ExecOutcome::Rows(r) => {
             if r.len() >= ROW_LIMIT {
                 return Err("too-many-rows".into());
@@ -432,13 +433,13 @@ pub fn c22(ctx: &CheckCtx) -> i32 {
          projected onto Q-'s outputs must equal rows of Q-. Non-trivial: some fold's \
          true size exceeds a count-filter bound so that early termination could fire; distinct by case hash.",
     );
-    let cases = ctx.cases(30_000, 1_000_000);
+    let cases = ctx.cases(150_000, 2_000_000);
     let res = search(ctx, "c22-reference", cases, WORLD_MIN_LEN, WORLD_MAX_LEN, |b, s, k| c22_reference_case(b, s, k, &cfg));
     report.absorb(res, &|b| render_world_case(b, &cfg));
-    let cases = ctx.cases(60_000, 2_000_000);
+    let cases = ctx.cases(150_000, 2_000_000);
     let res = search(ctx, "c22-meta", cases, WORLD_MIN_LEN, WORLD_MAX_LEN, |b, s, k| c22_meta_case(b, s, k, &cfg));
     report.absorb(res, &|b| render_world_case(&b[1.min(b.len())..], &cfg));
-    let cases = ctx.cases(60_000, 2_000_000);
+    let cases = ctx.cases(200_000, 3_000_000);
     let res = search(ctx, "c22-strip", cases, WORLD_MIN_LEN, WORLD_MAX_LEN, |b, s, k| c22_strip_case(b, s, k, &cfg));
     report.absorb(res, &|b| render_world_case(&b[1.min(b.len())..], &cfg));
     report.finish()
@@ -447,7 +448,9 @@ pub fn c22(ctx: &CheckCtx) -> i32 {
 // ---------------------------------------------------------------------------------------------
 // C23
 
-const RELATIONS: [&str; 8] = [
+const RELATIONS: [&str; 10] = [
+    "add_count_filter",
+    "count_filter_and_negation_partition",
     "add_filter",
     "raise_recurse_depth",
     "add_optional",
@@ -459,6 +462,8 @@ const RELATIONS: [&str; 8] = [
 ];
 
 struct Transformed {
+    /// replaces the generated query as the base of the relation (e.g. the same query with one fold's observers removed)
+    base: Option<Query>,
     queries: Vec<(Query, BTreeMap<String, Value>)>,
     /// output-name mapping from the base query's names to the transformed query's names
     rename: Option<BTreeMap<String, String>>,
@@ -487,6 +492,61 @@ fn transform(c: &mut Choices<'_>, case: &WorldCase, rel: &str) -> Option<Transfo
     let q = &case.query;
     let schema = &case.world.schema;
     match rel {
+        "add_count_filter" | "count_filter_and_negation_partition" => {
+            // a fold of the root component whose source vertex is not inside an @optional scope
+            let partition = rel == "count_filter_and_negation_partition";
+            let paths: Vec<Vec<usize>> = edge_paths(q)
+                .into_iter()
+                .filter(|p| {
+                    !p.is_empty()
+                        && edge_at(q, p).fold
+                        && !inside_fold(q, &p[..p.len() - 1])
+                        && !anode_at(&case.ann.root, q, p).source_in_optional
+                })
+                .collect();
+            if paths.is_empty() {
+                return None;
+            }
+            let path = paths[c.below(paths.len())].clone();
+            // half of the time every observer is removed from that fold first (in the base query as well), so that the
+            // fold is eligible for the engine's early termination
+            let mut base = q.clone();
+            let stripped = c.chance(128) && !defines_tags(edge_at(q, &path));
+            if stripped {
+                strip_outputs(edge_at_mut(&mut base, &path));
+                base.root.body.push(Sel::Prop(PropSel { name: "__typename".into(), outputs: vec![Some("obs_root".into())], ..Default::default() }));
+            }
+            let pairs: [(Op, Op); 8] = [
+                (Op::Eq, Op::Ne),
+                (Op::Ne, Op::Eq),
+                (Op::OneOf, Op::NotOneOf),
+                (Op::NotOneOf, Op::OneOf),
+                (Op::Lt, Op::Ge),
+                (Op::Ge, Op::Lt),
+                (Op::Le, Op::Gt),
+                (Op::Gt, Op::Le),
+            ];
+            let (op, neg) = pairs[c.below(pairs.len())];
+            let name = fresh_var(case, "m");
+            let mut args = case.args.clone();
+            let scalar = |c: &mut Choices<'_>| Value::Int { v: c.below(6) as i128 - 1, unsigned: c.chance(100) };
+            let operand = if matches!(op, Op::OneOf | Op::NotOneOf) {
+                let n = c.below(4);
+                Value::List((0..n).map(|_| scalar(c)).collect())
+            } else {
+                scalar(c)
+            };
+            args.insert(name.clone(), operand);
+            let mk = |op: Op| {
+                let mut q2 = base.clone();
+                let e = edge_at_mut(&mut q2, &path);
+                let cs = e.count.get_or_insert_with(CountSel::default);
+                cs.filters.push(Filter { op, arg: Some(Arg::Var(name.clone())) });
+                q2
+            };
+            let queries = if partition { vec![(mk(op), args.clone()), (mk(neg), args)] } else { vec![(mk(op), args)] };
+            Some(Transformed { base: if stripped { Some(base) } else { None }, queries, rename: None, fold_lists_reordered: false })
+        }
         "add_filter" | "filter_and_negation_partition" => {
             let partition = rel == "filter_and_negation_partition";
             let paths: Vec<Vec<usize>> = root_component_paths(q)
@@ -539,9 +599,9 @@ fn transform(c: &mut Choices<'_>, case: &WorldCase, rel: &str) -> Option<Transfo
             };
             if partition {
                 let neg = op.negation()?;
-                Some(Transformed { queries: vec![(mk(op), args.clone()), (mk(neg), args)], rename: None, fold_lists_reordered: false })
+                Some(Transformed { base: None, queries: vec![(mk(op), args.clone()), (mk(neg), args)], rename: None, fold_lists_reordered: false })
             } else {
-                Some(Transformed { queries: vec![(mk(op), args)], rename: None, fold_lists_reordered: false })
+                Some(Transformed { base: None, queries: vec![(mk(op), args)], rename: None, fold_lists_reordered: false })
             }
         }
         "raise_recurse_depth" => {
@@ -554,7 +614,7 @@ fn transform(c: &mut Choices<'_>, case: &WorldCase, rel: &str) -> Option<Transfo
             let mut q2 = q.clone();
             let e = edge_at_mut(&mut q2, &path);
             e.recurse = Some(e.recurse.unwrap() + 1 + c.below(2) as u32);
-            Some(Transformed { queries: vec![(q2, case.args.clone())], rename: None, fold_lists_reordered: false })
+            Some(Transformed { base: None, queries: vec![(q2, case.args.clone())], rename: None, fold_lists_reordered: false })
         }
         "add_optional" => {
             let paths: Vec<Vec<usize>> = root_component_paths(q)
@@ -573,7 +633,7 @@ fn transform(c: &mut Choices<'_>, case: &WorldCase, rel: &str) -> Option<Transfo
             let path = paths[c.below(paths.len())].clone();
             let mut q2 = q.clone();
             edge_at_mut(&mut q2, &path).optional = true;
-            Some(Transformed { queries: vec![(q2, case.args.clone())], rename: None, fold_lists_reordered: false })
+            Some(Transformed { base: None, queries: vec![(q2, case.args.clone())], rename: None, fold_lists_reordered: false })
         }
         "parameter_as_filter" => {
             let mut cands = vec![];
@@ -609,7 +669,7 @@ fn transform(c: &mut Choices<'_>, case: &WorldCase, rel: &str) -> Option<Transfo
                 e.body.push(Sel::Prop(PropSel { name: prop, filters: vec![Filter { op: Op::Eq, arg: Some(Arg::Var(name.clone())) }], ..Default::default() }));
             }
             args.insert(name, v);
-            Some(Transformed { queries: vec![(q2, args)], rename: None, fold_lists_reordered: false })
+            Some(Transformed { base: None, queries: vec![(q2, args)], rename: None, fold_lists_reordered: false })
         }
         "eq_as_one_of" => {
             // every (path, body index, filter index) of an `=` / `!=` filter with a variable that is used only once
@@ -642,7 +702,7 @@ fn transform(c: &mut Choices<'_>, case: &WorldCase, rel: &str) -> Option<Transfo
             }
             let v = args.remove(&var)?;
             args.insert(name, Value::List(vec![v]));
-            Some(Transformed { queries: vec![(q2, args)], rename: None, fold_lists_reordered: false })
+            Some(Transformed { base: None, queries: vec![(q2, args)], rename: None, fold_lists_reordered: false })
         }
         "rename_outputs_and_tags" => {
             let mut q2 = q.clone();
@@ -708,7 +768,7 @@ fn transform(c: &mut Choices<'_>, case: &WorldCase, rel: &str) -> Option<Transfo
             if rename.is_empty() && tag_rename.is_empty() {
                 return None;
             }
-            Some(Transformed { queries: vec![(q2, case.args.clone())], rename: Some(rename), fold_lists_reordered: false })
+            Some(Transformed { base: None, queries: vec![(q2, case.args.clone())], rename: Some(rename), fold_lists_reordered: false })
         }
         "permute_siblings" => {
             let paths = edge_paths(q);
@@ -737,7 +797,7 @@ fn transform(c: &mut Choices<'_>, case: &WorldCase, rel: &str) -> Option<Transfo
                 }
             }
             // implicit output names do not depend on sibling order, so the identity mapping applies
-            Some(Transformed { queries: vec![(q2, case.args.clone())], rename: Some(BTreeMap::new()), fold_lists_reordered: inside_fold })
+            Some(Transformed { base: None, queries: vec![(q2, case.args.clone())], rename: Some(BTreeMap::new()), fold_lists_reordered: inside_fold })
         }
         _ => None,
     }
@@ -750,6 +810,15 @@ pub fn c23_case(bytes: &[u8], stats: &mut Stats, counting: bool, cfg: &GenConfig
     for b in tbytes.iter_mut() {
         *b = c.byte();
     }
+    let fold_cfg;
+    let cfg = if rel.contains("count_filter") {
+        let mut f = cfg.clone();
+        f.query.fold_bias = true;
+        fold_cfg = f;
+        &fold_cfg
+    } else {
+        cfg
+    };
     let case = decode_world_case(&mut c, cfg);
     if let Err(v) = compile_case(&case) {
         return match v {
@@ -767,7 +836,8 @@ pub fn c23_case(bytes: &[u8], stats: &mut Stats, counting: bool, cfg: &GenConfig
             return Verdict::Discard(format!("{rel}:transformed-query-invalid"));
         }
     }
-    let base = match run_query(&case, &case.query, &case.args) {
+    let base_query = t.base.as_ref().unwrap_or(&case.query);
+    let base = match run_query(&case, base_query, &case.args) {
         Ok(r) => r,
         Err(e) => return Verdict::Discard(format!("{rel}:base:{e}")),
     };
@@ -781,10 +851,10 @@ pub fn c23_case(bytes: &[u8], stats: &mut Stats, counting: bool, cfg: &GenConfig
     let mb = multiset(&base.rows);
     let m0 = multiset(&outs[0].rows);
     let (holds, nontrivial) = match rel {
-        "add_filter" => (sub_multiset(&m0, &mb), m0 != mb),
+        "add_filter" | "add_count_filter" => (sub_multiset(&m0, &mb), m0 != mb),
         "raise_recurse_depth" | "add_optional" => (sub_multiset(&mb, &m0), m0 != mb),
         "parameter_as_filter" | "eq_as_one_of" => (m0 == mb, !mb.is_empty()),
-        "filter_and_negation_partition" => {
+        "filter_and_negation_partition" | "count_filter_and_negation_partition" => {
             let mut sum = m0.clone();
             for (k, n) in multiset(&outs[1].rows) {
                 *sum.entry(k).or_insert(0) += n;
@@ -834,7 +904,7 @@ pub fn c23_case(bytes: &[u8], stats: &mut Stats, counting: bool, cfg: &GenConfig
                 outs.iter().map(|o| o.rows.len()).collect::<Vec<_>>(),
                 base.rows.iter().take(3).map(canon_row).collect::<Vec<_>>(),
                 outs.iter().map(|o| o.rows.iter().take(3).map(canon_row).collect::<Vec<_>>()).collect::<Vec<_>>(),
-                case.query_text,
+                base_query.render(),
                 t.queries.iter().map(|(q, _)| q.render()).collect::<Vec<_>>().join("\n--\n"),
                 case.args,
                 t.queries[0].1
@@ -856,14 +926,19 @@ pub fn c23(ctx: &CheckCtx) -> i32 {
          @optional/@recurse equals the same edge with a null parameter plus an explicit `=` filter; (5) `=`/`!=` equal \
          one_of/not_one_of with a one-element list; (6) a filter and its documented negation on a vertex outside optional \
          scopes partition the rows; (7) renaming explicit outputs and tags changes only names; (8) swapping sibling selections \
-         changes nothing (kept only if both compile). Non-trivial: results differ (1-3) or are non-empty (4-8); distinct by \
+         changes nothing (kept only if both compile); (9) adding a filter on the count of a root-component @fold yields a sub-multiset and (10) \
+         such a count filter and its complement (= / !=, one_of / not_one_of, < / >=, <= / >) partition the rows -- for (9) and \
+         (10) the world is fold-biased and half of the time every output is first removed from that fold (in the base query too), \
+         which makes it eligible for early termination. Non-trivial: results differ (1-3) or are non-empty (4-8); distinct by \
          (case, relation, position).",
     );
-    let cases = ctx.cases(240_000, 2_400_000);
+    let cases = ctx.cases(400_000, 4_000_000);
     let res = search(ctx, "c23", cases, WORLD_MIN_LEN + 25, WORLD_MAX_LEN + 25, |b, s, k| c23_case(b, s, k, &cfg));
     report.absorb(res, &|b| {
         let rel = RELATIONS[Choices::new(b).below(RELATIONS.len())];
-        json!({"relation": rel, "case": render_world_case(&b[25.min(b.len())..], &cfg)})
+        let mut rcfg = cfg.clone();
+        rcfg.query.fold_bias = rel.contains("count_filter");
+        json!({"relation": rel, "case": render_world_case(&b[25.min(b.len())..], &rcfg)})
     });
     report.finish()
 }
